@@ -1,5 +1,6 @@
 import Driver.Proto
 import Model.SafeFile
+import Model.SafeFileHist
 open Proto Safe
 
 /-! Model driver for C14.  Paths: 0 = destination, 1 = temporary file.  The buffer size of `bufio.NewWriterSize` comes
@@ -297,6 +298,109 @@ def openErrOf (fs : FS) (d : Str) : Option String :=
       | none => up n (dirOf x)
   some (up 64 d)
 
+/-! ### histories with a fault on any system call (`hist`, `hkill`) and several faults in one WriteFile (`multi`) -/
+
+inductive Tok | w (n : Nat) | C | X | F
+
+def parseTok? (s : String) : Option Tok :=
+  match s with
+  | "C" => some .C
+  | "X" => some .X
+  | "F" => some .F
+  | _ => if s.startsWith "w" then (s.drop 1).toNat?.map Tok.w else none
+
+def parseToks? (s : String) : Option (List Tok) :=
+  (s.splitOn ".").foldr (fun w acc => match parseTok? w, acc with
+    | some t, some l => some (t :: l)
+    | _, _ => none) (some [])
+
+/-- for each system call name: the 1-based index of the call that fails (0: none) and the errno to echo -/
+structure HFaults where
+  o : Nat := 0
+  w : Nat := 0
+  c : Nat := 0
+  r : Nat := 0
+  u : Nat := 0
+  eo : String := ""
+  ew : String := ""
+  ec : String := ""
+  er : String := ""
+  eu : String := ""
+
+def parseHFaults? (s : String) : Option HFaults :=
+  if s = "-" then some {} else
+  (s.splitOn ",").foldl (fun acc w => match acc, w.splitOn ":" with
+    | some h, [k, j, e] => match j.toNat? with
+      | some j => match k with
+        | "open" => some { h with o := j, eo := e }
+        | "write" => some { h with w := j, ew := e }
+        | "close" => some { h with c := j, ec := e }
+        | "rename" => some { h with r := j, er := e }
+        | "unlink" => some { h with u := j, eu := e }
+        | _ => none
+      | none => none
+    | _, _ => none) (some {})
+
+def countKind (k : String) (acts : List Act2) : Nat := (acts.filter fun a => actKind2 a == k).length
+
+/-- turn "the j-th call of this name fails" into the Booleans of `OpU`: the flags of a call say whether the NEXT system
+    call of each name is the failing one; the counters advance by what the model's call actually issues -/
+def assignOps (hf : HFaults) : File → Nat → Nat × Nat × Nat × Nat → List Tok → List OpU
+  | _, _, _, [] => []
+  | f, off, (nw, nc, nr, nu), t :: ts =>
+    let o : OpU := match t with
+      | .w n => .write (genBytes off n 3) (nw + 1 = hf.w)
+      | .C => .commit (nc + 1 = hf.c) (nr + 1 = hf.r) (nu + 1 = hf.u)
+      | .X => .close (nc + 1 = hf.c) (nu + 1 = hf.u)
+      | .F => .closeFd (nc + 1 = hf.c)
+    let r := f.stepU o
+    let off' := match t with
+      | .w n => if r.2.1 = .ok then off + n else off
+      | _ => off
+    o :: assignOps hf r.1 off' (nw + countKind "write" r.2.2, nc + countKind "close" r.2.2, nr + countKind "rename" r.2.2,
+      nu + countKind "unlink" r.2.2) ts
+
+def showActH (pn : Path → String) (hf : HFaults) : Act2 → String
+  | .base (.writeFail p n) => s!"write {pn p} {n}!{hf.ew}"
+  | .base (.closeFail p) => s!"close {pn p}!{hf.ec}"
+  | .base (.renameFail a b) => s!"rename {pn a} {pn b}!{hf.er}"
+  | .base a => showActP pn "" a
+  | .openFail p m _ => s!"create {pn p} {toOct m}!{hf.eo}"
+  | .unlinkFail p => s!"unlink {pn p}!{hf.eu}"
+
+def showSeqH (dq : Path) (hf : HFaults) (acts : List Act2) : String :=
+  let pn : Path → String := fun p => if p = dq then "dst" else "tmp"
+  if acts.isEmpty then "-" else ";".intercalate (acts.map (showActH pn hf))
+
+/-- the errno a call reports: of the first failing system call it issued, as `Commit` / `Close` pick it -/
+def resH (hf : HFaults) (o : OpU) (r : Res) : String :=
+  match r, o with
+  | .errno, .write _ _ => "errno:" ++ hf.ew
+  | .errno, .commit a _ _ => "errno:" ++ (if a then hf.ec else hf.er)
+  | .errno, .close a _ => "errno:" ++ (if a then hf.ec else hf.eu)
+  | .errno, .closeFd _ => "errno:" ++ hf.ec
+  | r, _ => showRes r ""
+
+/-- `hist` / `hkill`: the whole API from the name check on (`apiRunFull`), destination `/d/dst` -/
+def histRun (um mode : Nat) (old : Option FileData) (toks : List Tok) (hf : HFaults) :
+    FS × List OpU × (Res2 × List Res × List Act2) :=
+  let fs0 := fsQ dstQ old
+  let ofaults : Nat → Option OpenFault := fun i => if i + 1 = hf.o then some .other else none
+  let f0 : File := { tmp := codeStr (tempName tmpdirS (dirOf dstS) safePattern 0), dst := dstQ }
+  let ops := assignOps hf f0 0 (0, 0, 0, 0) toks
+  (fs0, ops, apiRunFull codeStr tmpdirS dstS mode ops (fun i => i) ofaults fs0)
+
+/-- every prefix: the destination is the old state or the state at the end of the run -/
+def readerOkH (umask : Nat) (dq : Path) (fs0 : FS) (acts : List Act2) : Bool :=
+  let final := run2 umask fs0 acts dq
+  let ok (fs : FS) : Bool := fs dq = fs0 dq ∨ fs dq = final
+  let rec go : FS → List Act2 → Bool
+    | _, [] => true
+    | fs, a :: as =>
+      let fs' := applyAct2 umask fs a
+      ok fs' && go fs' as
+  ok fs0 && go fs0 acts
+
 structure St where
   N : Nat := 65536
   umask : Nat := 0
@@ -304,6 +408,9 @@ structure St where
   file : Option File := none
   off : Nat := 0
   live : Bool := false
+  -- area duo: two handles on the one destination (temporary files: paths 1 and 2)
+  duoF : Nat → Option File := fun _ => none
+  duoOff : Nat → Nat := fun _ => 0
 
 def scenario (N : Nat) (kind : String) (mode : Nat) (pieces : List Bytes) (cb : CbMode) (fault : Fault) :
     Option (Res × List Act) :=
@@ -312,6 +419,27 @@ def scenario (N : Nat) (kind : String) (mode : Nat) (pieces : List Bytes) (cb : 
   | "commit" => some (fileRun tmpP dstP mode pieces true fault)
   | "abort" => some (fileRun tmpP dstP mode pieces false fault)
   | _ => none
+
+def duoTmp (h : Nat) : Path := h + 1
+def duoSeed (h : Nat) : Nat := if h = 0 then 3 else 5
+def duoH? (s : String) : Option Nat := if s = "A" then some 0 else if s = "B" then some 1 else none
+
+def duoObs (st : St) (r : String) : String :=
+  s!"{r} dst={showState (st.fs dstP)} A={showState (st.fs (duoTmp 0))} B={showState (st.fs (duoTmp 1))}"
+
+/-- one call on handle `h` of the pair: `File.stepU` (the definition `two_histories_old_or_A_or_B` is about), no fault
+    except the environment's: renaming onto a directory fails -/
+def duoStep (st : St) (h : Nat) (mk : File → Nat → OpU × Nat) : St × String :=
+  match st.duoF h with
+  | none => (st, "bad-op")
+  | some f =>
+    let (o, n) := mk f (st.duoOff h)
+    let r := f.stepU o
+    let st' := { st with
+      duoF := fun k => if k = h then some r.1 else st.duoF k
+      duoOff := fun k => if k = h ∧ r.2.1 = .ok then st.duoOff k + n else st.duoOff k
+      fs := run2 st.umask st.fs r.2.2 }
+    (st', duoObs st' (showRes r.2.1 "DIR"))
 
 def apiObs (st : St) (r : String) : String := s!"{r} dst={showState (st.fs dstP)} tmp={showState (st.fs tmpP)}"
 
@@ -356,6 +484,42 @@ def step (st : St) (line : String) : St × String :=
         (st, s!"seq={showSeq2 dstQ sp.e eu acts} dst={showState (fs dstQ)} tmp={showTmp fs acts} reader={if readerOk2 um dstQ fs0 (newFile mode um pieces) acts then "ok" else "BAD"}")
       | none => (st, "bad-op")
     | _, _, _, _, _, _, _ => (st, "bad-op")
+  | ["hist", old, um, mode, ops, faults] =>
+    match parseOld? old, parseOct? um, parseOct? mode, parseToks? ops, parseHFaults? faults with
+    | some old, some um, some mode, some toks, some hf =>
+      let (fs0, opsU, r) := histRun um mode old toks hf
+      let fs := run2 um fs0 r.2.2
+      let res := match r.1 with
+        | .res .ok => if opsU.isEmpty then "-" else ",".intercalate ((opsU.zip r.2.1).map fun (o, x) => resH hf o x)
+        | e => "create:" ++ showRes2 e hf.eo
+      (st, s!"seq={showSeqH dstQ hf r.2.2} res={res} dst={showState (fs dstQ)} tmp={showTmp fs r.2.2} reader={if readerOkH um dstQ fs0 r.2.2 then "ok" else "BAD"}")
+    | _, _, _, _, _ => (st, "bad-op")
+  | ["hkill", old, um, mode, ops, faults, name, j] =>
+    match parseOld? old, parseOct? um, parseOct? mode, parseToks? ops, parseHFaults? faults, j.toNat? with
+    | some old, some um, some mode, some toks, some hf, some j =>
+      -- the kill replaces a fault on the same system call name
+      let hf := match name with
+        | "open" => { hf with o := 0 } | "write" => { hf with w := 0 } | "close" => { hf with c := 0 }
+        | "rename" => { hf with r := 0 } | "unlink" => { hf with u := 0 } | _ => hf
+      let (fs0, _, r) := histRun um mode old toks hf
+      let acts := r.2.2.take (killIndex2 r.2.2 name j)
+      let fs := run2 um fs0 acts
+      (st, s!"seq={showSeqH dstQ hf acts} dst={showState (fs dstQ)} tmp={showTmp fs acts} reader={if readerOkH um dstQ fs0 r.2.2 then "ok" else "BAD"}")
+    | _, _, _, _, _, _ => (st, "bad-op")
+  | ["multi", old, um, mode, pcs, prim, cbm, sec] =>
+    match parseOld? old, parseOct? um, parseOct? mode, parsePieces? pcs, parseFault? prim, parseCb? cbm with
+    | some old, some um, some mode, some sizes, some (fault, e), some cb =>
+      let secs := (sec.splitOn "+").map fun w => w.splitOn ":"
+      let ec := (secs.findSome? fun p => match p with | ["close", x] => some x | _ => none)
+      let eu := (secs.findSome? fun p => match p with | ["unlink", x] => some x | _ => none)
+      let pieces := mkPieces sizes
+      let fs0 := fsQ dstQ old
+      let r := writeFileMulti codeStr tmpdirS dstS st.N mode pieces cb fault (fun i => i) (fun _ => none) ec.isSome eu.isSome fs0
+      let fs := run2 um fs0 r.2
+      -- errno names: the primary fault's for the call it sits on, the secondary's for the deferred close / the unlink
+      let hf : HFaults := { ew := e, er := e, ec := (if fault = .close then e else ec.getD ""), eu := eu.getD "" }
+      (st, s!"seq={showSeqH dstQ hf r.2} res={showRes2 r.1 e} dst={showState (fs dstQ)} tmp={showTmp fs r.2} reader={if readerOk2 um dstQ fs0 (newFile mode um pieces) r.2 then "ok" else "BAD"}")
+    | _, _, _, _, _, _ => (st, "bad-op")
   | ["collide", old, k, pcs, fault, cbm] =>
     -- REAL collisions: the directory already holds the first k candidate names (the harness pins crypto/rand.Reader)
     match parseOld? old, k.toNat?, parsePieces? pcs, parseFault2? fault, parseCb2? cbm with
@@ -450,8 +614,40 @@ def step (st : St) (line : String) : St × String :=
     | _, _, _, _ => (st, "bad-op")
   | ["reset", old, um] =>
     match parseOld? old, parseOct? um with
-    | some old, some um => ({ st with umask := um, fs := fs0 old, file := none, off := 0, live := true }, "reset")
+    | some old, some um =>
+      let st1 := { st with umask := um, fs := fs0 old, file := none, off := 0, live := true }
+      ({ st1 with duoF := fun _ => none, duoOff := fun _ => 0 }, "reset")
     | _, _ => (st, "bad-op")
+  | ["dcreate", h, mode] =>
+    match duoH? h, parseOct? mode, st.live with
+    | some h, some mode, true =>
+      match st.duoF h with
+      | some _ => (st, "bad-op")
+      | none =>
+        let r := File.create (duoTmp h) dstP mode
+        let st' := { st with duoF := fun k => if k = h then some r.1 else st.duoF k, fs := run st.umask st.fs r.2 }
+        (st', duoObs st' "ok")
+    | _, _, _ => (st, "bad-op")
+  | ["dwrite", h, n] =>
+    match duoH? h, n.toNat? with
+    | some h, some n => duoStep st h fun _ off => (.write (genBytes off n (duoSeed h)) false, n)
+    | _, _ => (st, "bad-op")
+  | ["dcommit", h] =>
+    match duoH? h with
+    | some h =>
+      let dstIsDir := match st.fs dstP with
+        | some d => decide (d.mode ≥ dirFlag ∧ d.mode < linkFlag)
+        | none => false
+      duoStep st h fun _ _ => (.commit false dstIsDir false, 0)
+    | none => (st, "bad-op")
+  | ["dclose", h] =>
+    match duoH? h with
+    | some h => duoStep st h fun _ _ => (.close false false, 0)
+    | none => (st, "bad-op")
+  | ["dclosefd", h] =>
+    match duoH? h with
+    | some h => duoStep st h fun _ _ => (.closeFd false, 0)
+    | none => (st, "bad-op")
   | ["create", mode] =>
     match parseOct? mode, st.live, st.file with
     | some mode, true, none =>
